@@ -163,3 +163,11 @@ package state
 //@   serves C06, C08
 //@   requires int(BitSize) <= 4294967280
 //@   ensures @flags fresh(result) && fresh(result.Flags) && flagsOk(result) && int(result.BitSize) == int(BitSize) + 8 && result.Language == nil && result.input == nil
+
+// ---- who may write the representation (module-wide audit; the fields are exported) ----
+// (stores by reflection - the cbor decoder of package persist - are not visible to the audit;
+// element writes go through the methods' frames)
+//@ fieldwriters[C04,C08,C02] State.ExecPath = (*State).Down, (*State).Up, (*State).Restart
+//@ fieldwriters[C04,C08,C02] State.SizeIdx = (*State).Down, (*State).Up, (*State).Next, (*State).Previous, (*State).Restart
+//@ fieldwriters[C06,C08,C20] State.Flags = NewState
+//@ fieldwriters[C03,C17] State.input = (*State).SetInput, (*State).Restart
